@@ -89,3 +89,16 @@ Theorem C19_rearm_after_stop_delivers : forall s h v,
   exists i, tm_delivered (tm_settle (tm_register h v (tm_stop s))) = (i, h, v) :: tm_delivered (tm_stop s).
 Proof. exact rearm_after_stop_delivers. Qed.
 Print Assumptions C19_rearm_after_stop_delivers.
+
+(* the election trigger under any sequence of public operations (register, stop, time passing with or without a reader
+   of the channel): once the reader is back nothing is parked in triggerElections, and after Stop every callback that is
+   still parked has been cancelled and gives up without any reader - nothing of the trigger outlives a shutdown *)
+Theorem C19_trigger_nothing_parked_once_the_reader_is_back : forall ops, tm_public_parked (ops ++ [PResume]) = 0%nat.
+Proof. exact nothing_parked_once_the_reader_is_back. Qed.
+Print Assumptions C19_trigger_nothing_parked_once_the_reader_is_back.
+
+Theorem C19_trigger_after_stop_every_parked_callback_gives_up : forall ops i x,
+  nth_error (tm_insts (fold_left tm_pstep (ops ++ [PStop]) tm_init)) i = Some x ->
+  (ti_phase x = TSending -> ti_cancelled x = true) /\ ti_phase x <> TRunning /\ ti_phase x <> TPending.
+Proof. exact after_stop_every_parked_instance_gives_up. Qed.
+Print Assumptions C19_trigger_after_stop_every_parked_callback_gives_up.
